@@ -259,14 +259,6 @@ Proof.
   destruct (pre_id st <? t); inversion E; subst; split; auto.
 Qed.
 
-Lemma take_live_firstn : forall t n, fst (take_live n t) = firstn n (live t).
-Proof.
-  unfold live. induction t as [|[r f] t IH]; intros [|n]; simpl; auto.
-  destruct f; simpl.
-  - specialize (IH n). destruct (take_live n t). simpl in *. f_equal; auto.
-  - apply (IH (S n)).
-Qed.
-
 (* mayCommit with an allowance between the committed and the precommitted transaction *)
 Lemma may_commit_ext st : com_id st <= s_allowed st -> s_allowed st <= pre_id st ->
   com_id (may_commit c st) = s_allowed st /\ s_allowed (may_commit c st) = s_allowed st /\
@@ -275,22 +267,19 @@ Lemma may_commit_ext st : com_id st <= s_allowed st -> s_allowed st <= pre_id st
 Proof.
   intros L1 L2. split; [|split; [|split; [|apply may_commit_chain]]].
   all: unfold may_commit; rewrite Cext.
+  all: assert (Lt : lenN (s_tail st) = pre_id st - com_id st)
+         by (unfold pre_id, chain, com_id; rewrite lenN_app; lia).
   all: destruct (N.eqb_spec (s_allowed st - com_id st) 0) as [Z|Z].
-  all: try (destruct (take_live (N.to_nat (s_allowed st - com_id st)) (s_tail st)) as [x y] eqn:Et;
-    pose proof (take_live_firstn (s_tail st) (N.to_nat (s_allowed st - com_id st))) as Ef;
-    rewrite Et in Ef; cbn [fst] in Ef;
-    assert (Ll : lenN x = s_allowed st - com_id st) by
-      (rewrite Ef; unfold lenN; rewrite firstn_length;
-       unfold pre_id, chain, com_id in *; rewrite lenN_app in *; unfold lenN in *; lia);
-    destruct (N.ltb_spec (lenN x) (s_allowed st - com_id st)); [lia|]).
+  all: try (destruct (N.ltb_spec (lenN (s_tail st)) (s_allowed st - com_id st)); [lia|]).
   - lia.
-  - unfold com_id. cbn [s_com]. rewrite lenN_app. fold (com_id st). lia.
+  - unfold com_id. cbn [s_com]. rewrite lenN_app. fold (com_id st). unfold lenN. rewrite firstn_length.
+    unfold lenN in Lt. unfold com_id, lenN in *. lia.
   - reflexivity.
   - reflexivity.
   - unfold chain.
     replace (N.to_nat (s_allowed st)) with (length (s_com st) + 0)%nat by (unfold com_id, lenN in *; lia).
     rewrite firstn_app_2. simpl. rewrite app_nil_r. reflexivity.
-  - cbn [s_com]. rewrite Ef. unfold chain.
+  - cbn [s_com]. unfold chain.
     replace (N.to_nat (s_allowed st)) with (length (s_com st) + N.to_nat (s_allowed st - com_id st))%nat
       by (unfold com_id, lenN in *; lia).
     rewrite firstn_app_2. reflexivity.
